@@ -1,8 +1,10 @@
-"""usage: store_seed.py <seed-src-dir> <id> <property> <initially_missed 0/1> "<summary>" "<needs>"
+"""usage: store_seed.py <seed-src-dir> <id> <property> <initially_missed 0/1> "<summary>" "<needs>" [<property whose check reports it> [<note>]]
 Copies a confirmed seeded change into /verif/seeded/<id>/ with meta.json; runs the property's check against it
 (scratch worktree) to record which rule keys report it."""
 import json, os, shutil, subprocess, sys
 src, sid, prop, missed, summary, needs = sys.argv[1:7]
+check_prop = sys.argv[7] if len(sys.argv) > 7 else prop
+note = sys.argv[8] if len(sys.argv) > 8 else None
 dst = os.path.join("/verif/seeded", sid)
 os.makedirs(dst, exist_ok=True)
 for f in os.listdir(src):
@@ -12,7 +14,7 @@ for f in os.listdir(src):
         continue
     if os.path.isfile(os.path.join(src, f)) and os.path.getsize(os.path.join(src, f)) < 200000:
         shutil.copy(os.path.join(src, f), os.path.join(dst, f))
-out = subprocess.run(["/verif/tools/mutant.sh", os.path.join(src, "patch.diff"), "--", prop], capture_output=True, text=True).stdout
+out = subprocess.run(["/verif/tools/mutant.sh", os.path.join(src, "patch.diff"), "--", check_prop], capture_output=True, text=True).stdout
 keys = [l.strip() for l in out.splitlines() if l.startswith("   ")]
 tests = ""
 ct = os.path.join(src, "confirm.tests.txt")
@@ -30,5 +32,9 @@ meta = dict(id=sid, breaks_property=prop, summary=summary, needs_to_manifest=nee
                            how="tools/confirm_seed.sh in a scratch worktree of /repo HEAD (outside /repo and /verif), removed afterwards"),
             detected_by=keys, detected=bool(keys), initially_missed=bool(int(missed)),
             origin="independent sub-agent given only the property text and a scratch worktree")
+if check_prop != prop:
+    meta["detected_by_check_of"] = check_prop
+if note:
+    meta["note"] = note
 json.dump(meta, open(os.path.join(dst, "meta.json"), "w"), indent=1, ensure_ascii=False)
 print(sid, "detected" if keys else "NOT DETECTED", keys[:2])
